@@ -123,7 +123,7 @@ def gen_case(rng, tier, idx):
         rules.append({"outcome": oc, "key": "KEY%d" % rng.randint(0, 3), "module": rng.randrange(3),
                       "tags": rng.sample(["t1", "t2", "t3"], rng.randint(0, 2)),
                       "links": {"kcs": ["http://x/%d" % i]} if rng.random() < 0.5 else None,
-                      "mk": rng.choice(["fail", "pass", "info", "fingerprint"]),
+                      "mk": rng.choice(["fail", "pass", "info", "fingerprint"]), "fill": rng.choice(["x", "x", "\u00e9", "\u4e2d", "tuples"]),
                       "payload": rng.choice([{}, {"n": i}, {"l": [1, "two", None]}, {"d": {"a": {"b": i}}}, {"s": "x" * rng.randint(0, 50)}]),
                       # content templates (rendered by formatters asked to): fine, undefined variable, type error while
                       # rendering this very response, syntax error
@@ -135,7 +135,8 @@ def gen_case(rng, tier, idx):
             rules[j]["same_name_as"] = a
             rules[j]["module"] = rules[a]["module"]
             rules[j]["key"] = "KEYT%d" % j
-    return {"rules": rules, "limit": rng.choice([None, None, 300, 1000])}
+    # the broker is not always fresh: another rule may have been evaluated on it before the evaluator / formatter is attached
+    return {"rules": rules, "limit": rng.choice([None, None, 300, 1000]), "prefire": rng.random() < 0.3}
 
 
 def nontrivial(spec):
@@ -209,10 +210,21 @@ def run_case(spec, ctx):
         for i, rs in enumerate(spec["rules"]):
             oc, key = rs["outcome"], rs["key"]
 
-            def sized(target, mk, key):
-                probe = mk(key, data="")
-                base = len(str(dict(probe)))
-                return "x" * max(0, target - base)
+            def sized(target, mk, key, fill="x"):
+                """a payload whose response is exactly `target` characters long as the statement measures it (the details
+                as a string): plain ASCII, accented text, or a list of one-element tuples - serialised forms of the last
+                two are much longer resp. shorter than what is measured"""
+                probe = dict(mk(key, data=""))
+                base = len(str(probe))
+                if fill == "tuples":
+                    payload = [("a",)] * max(0, (target - base) // 8 - 3)
+                    d = dict(probe)
+                    d["data"] = payload + [""]
+                    pad = target - len(str(d))
+                    if pad >= 0:
+                        return payload + ["x" * pad]
+                    fill = "x"
+                return (fill if len(fill) == 1 else "x") * max(0, target - base)
 
             def body(*a, _rs=rs, _i=i):
                 oc, key, mk = _rs["outcome"], _rs["key"], MK[_rs["mk"]]
@@ -251,7 +263,7 @@ def run_case(spec, ctx):
                     return make_metadata(type="z")
                 if oc in ("size_under", "size_at", "size_over"):
                     tgt = limit + {"size_under": -1, "size_at": 0, "size_over": 1}[oc]
-                    r = mk(key, data=sized(tgt, mk, key))
+                    r = mk(key, data=sized(tgt, mk, key, _rs.get("fill", "x")))
                     return r
                 return mk(key)
             body.__name__ = body.__qualname__ = "r%d_%d" % (uid, i)
@@ -281,9 +293,21 @@ def run_case(spec, ctx):
         graph = {}
         for r in rules:
             graph.update(dr.get_dependency_graph(r))
+        warm = None
+        if spec.get("prefire"):
+            def warm_body(*a):
+                return make_pass("WARM_UP")
+            warm_body.__name__ = warm_body.__qualname__ = "warm%d" % uid
+            warm_body.__module__ = mods[0]
+            warm = rule(present)(warm_body)
+            created.append(warm)
+            setattr(sys.modules[mods[0]], warm_body.__name__, warm)
         for vname, opts in variants():
             case = {"rules": spec, "variant": [vname, opts]}
             br = dr.Broker()
+            if warm is not None:
+                dr.run(dr.get_dependency_graph(warm), broker=br)
+                ctx.count("evaluations_on_a_broker_that_already_ran_a_rule")
             buf = io.StringIO()
             resp = None
             try:
